@@ -207,6 +207,21 @@ def end_to_end_backlog(chk, n):
     return rc, recs, bytes(buf).count(b'\n'), taken_all
 
 
+def rerun_foreign(chk, lines, outs, timeout):
+    """A run that met a socket of ANOTHER process on its port (the kernel handed the same ephemeral port to somebody else
+    between two of the harness's binds: checks running side by side, other tests on the machine) says nothing about
+    the receiver: it is repeated, up to three times, on a fresh port."""
+    for _ in range(3):
+        idx = [i for i, o in enumerate(outs) if 'foreignport' in o]
+        if not idx:
+            break
+        chk.notes.append('%d run(s) repeated: a socket of another process was bound to the port' % len(idx))
+        again = impl_run(chk.harness, [lines[i] for i in idx], timeout=timeout, limit_mem=False)
+        for i, o in zip(idx, again):
+            outs[i] = o
+    return outs
+
+
 def run(chk):
     me = sys.modules[__name__]
     std_prepare(chk)
@@ -221,7 +236,7 @@ def run(chk):
     for s, c, t in plan:
         lines.append('udpseq #%x #%x #%x #%x =%s #%x' % (c[0], c[1], c[2], c[3], bytes(s).hex(), t))
         exps.append(' '.join(expected_calls(s)) + ' goroutinesok portok')
-    impl = impl_run(chk.harness, lines, timeout=300.0, limit_mem=False)
+    impl = rerun_foreign(chk, lines, impl_run(chk.harness, lines, timeout=300.0, limit_mem=False), 300.0)
     chk.evals += len(lines)
     chk.count('call sequences', len(lines))
     chk.exhaustive.append('every Start/Stop call sequence of length 1..6 (126)')
@@ -235,7 +250,7 @@ def run(chk):
     # queued before Stop => decoded
     sl = ['udpstop #%x #%x #%x' % (rng.choice([1, 2, 4, 8]), rng.choice([1000, 2000]), rng.choice([100, 300, 600]))
           for _ in range(dict(quick=12, thorough=150)[chk.tier])]
-    so = impl_run(chk.harness, sl, timeout=120.0, limit_mem=False)
+    so = rerun_foreign(chk, sl, impl_run(chk.harness, sl, timeout=120.0, limit_mem=False), 120.0)
     chk.evals += len(sl)
     chk.count('queued-before-stop', len(sl))
     for a, o in zip(sl, so):
@@ -251,7 +266,7 @@ def run(chk):
     for _ in range(dict(quick=16, thorough=120)[chk.tier]):
         sockets = rng.choice([1, 2, 4])
         bl.append('udpstop #%x #%x #%x #%x #1' % (rng.choice([1, 2, 4]), rng.choice([0, 0, 1, 8]), rng.choice([64, 200]), sockets))
-    bo = impl_run(chk.harness, bl, timeout=120.0, limit_mem=False)
+    bo = rerun_foreign(chk, bl, impl_run(chk.harness, bl, timeout=120.0, limit_mem=False), 120.0)
     chk.evals += len(bl)
     chk.count('blocking: held decoders, readers waiting to hand over, then Stop', len(bl))
     for a, o in zip(bl, bo):
